@@ -133,10 +133,94 @@ func c13OutOfScope(f *ssa.Function) bool {
 // b to a.Compare only after a.Format() == b.Format() was established.
 func c13EqualFormatFirst(ctx *core.Ctx, r *core.Report) {
 	f := ctx.Fn("val", "Equal")
-	if f == nil {
-		r.Fatalf("anchor val.Equal not found")
+	ro := ctx.Method("node", "xpathImpl", "resolveOperator")
+	if f == nil || ro == nil {
+		r.Fatalf("anchors val.Equal / node.xpathImpl.resolveOperator not found")
 		return
 	}
+	c13FormatBeforeCompare(ctx, r, f, "val.Equal")
+	// the same for the relational operators of where/when/filter expressions: the literal is
+	// built with the leaf's type, which for a union leaf picks a member by the literal's text
+	// and may differ from the member the stored value has
+	c13FormatBeforeCompare(ctx, r, ro, "node.xpathImpl.resolveOperator")
+	c13WhenContext(ctx, r)
+	c13WriteHasValue(ctx, r)
+}
+
+// c13WhenContext backs the triage of xpathImpl.resolvePath's
+// s.Meta().(meta.HasDefinitions): the library itself evaluates expressions only on
+// selections of nodes that have definitions. CheckWhen, which is run for every field
+// request — also one made through a selection on the leaf itself (Find("leaf").Get()) —
+// moves to the parent selection when the selection is a leaf's before it evaluates.
+func c13WhenContext(ctx *core.Ctx, r *core.Report) {
+	f := ctx.Method("node", "CheckWhen", "check")
+	xp := ctx.Method("node", "Selection", "XPredicate")
+	if f == nil || xp == nil {
+		r.Fatalf("anchors node.CheckWhen.check / Selection.XPredicate not found")
+		return
+	}
+	for _, c := range callsStatic(f, xp, false) {
+		recv := c.Common().Args[0]
+		// the receiver is a phi (or load) that on the leaf side carries s.parent
+		ok := false
+		seen := map[ssa.Value]bool{}
+		var walk func(v ssa.Value)
+		walk = func(v ssa.Value) {
+			if v == nil || seen[v] {
+				return
+			}
+			seen[v] = true
+			switch x := v.(type) {
+			case *ssa.Phi:
+				for _, e := range x.Edges {
+					walk(e)
+				}
+			case *ssa.UnOp:
+				if fa, isFa := x.X.(*ssa.FieldAddr); isFa {
+					if st, isSt := core.Deref(fa.X.Type()).Underlying().(*types.Struct); isSt && st.Field(fa.Field).Name() == "parent" {
+						// loaded under IsLeaf(...) == true
+						for _, pc := range core.PathConds(x.Block()) {
+							if call, isCall := pc.V.(*ssa.Call); isCall && pc.True {
+								if cal := core.StaticCallee(call); cal != nil && core.FnName(cal) == "meta.IsLeaf" {
+									ok = true
+								}
+							}
+						}
+					}
+				}
+			}
+		}
+		walk(recv)
+		r.Ob("guard-backing", "node.CheckWhen.check/leaf-selection-uses-parent", ctx.Pos(c.Pos()), ok,
+			"a when is evaluated on the selection it was handed even when that is a selection on the leaf itself (Find(\"leaf\") then Get/Set): the expression evaluator asserts that the context node has definitions and panics on a leaf")
+	}
+}
+
+// c13WriteHasValue: the public Selection.Set hands its value to the node only after
+// testing it for nil — nodes dereference the value of a write request.
+func c13WriteHasValue(ctx *core.Ctx, r *core.Report) {
+	f := ctx.Method("node", "Selection", "Set")
+	set := ctx.Method("node", "Selection", "set")
+	if f == nil || set == nil || len(f.Params) < 2 {
+		r.Fatalf("anchors node.Selection.Set / set not found")
+		return
+	}
+	v := f.Params[1]
+	for _, c := range callsStatic(f, set, false) {
+		ok := false
+		for _, pc := range core.PathConds(c.Block()) {
+			if bo, isB := pc.V.(*ssa.BinOp); isB && (core.Strip(bo.X) == ssa.Value(v) || bo.X == ssa.Value(v)) && core.IsNilConst(bo.Y) {
+				if (bo.Op == token.EQL && !pc.True) || (bo.Op == token.NEQ && pc.True) {
+					ok = true
+				}
+			}
+		}
+		r.Ob("guard-backing", "node.Selection.Set/value-not-nil", ctx.Pos(c.Pos()), ok,
+			"Selection.Set hands a nil value to the node as a write: node implementations call Value() on it (nil dereference); a missing value is a bad request")
+	}
+}
+
+func c13FormatBeforeCompare(ctx *core.Ctx, r *core.Report, f *ssa.Function, name string) {
 	n := 0
 	for _, c := range core.CallSites(f) {
 		m := core.IfaceMethod(c)
@@ -159,10 +243,10 @@ func c13EqualFormatFirst(ctx *core.Ctx, r *core.Report) {
 				}
 			}
 		}
-		r.Ob("equal-format-first", "val.Equal→Comparable.Compare", ctx.Pos(c.Pos()), ok,
-			"Equal compares two values with Compare before it knows they have the same format: every Compare method asserts its argument to its own kind and panics on another")
+		r.Ob("equal-format-first", name+"→Comparable.Compare", ctx.Pos(c.Pos()), ok,
+			name+" compares two values with Compare before it knows they have the same format: every Compare method asserts its argument to its own kind and panics on another")
 	}
-	r.Floor("equal-format-first", n, 1)
+	r.Floor("equal-format-first("+name+")", n, 1)
 }
 
 var c13LexTriage = map[string]string{
